@@ -691,6 +691,27 @@ func (c *specCtx) call(x *ast.CallExpr) specVal {
 	case "ite":
 		cc, a, b := c.eval(args[0]), c.eval(args[1]), c.eval(args[2])
 		return specVal{term: fmt.Sprintf("(ite %s %s %s)", cc.term, a.term, b.term), typ: a.typ}
+	case "forall_as", "exists_as":
+		// forall_as(x, T, body): one bound variable of Go type T
+		id, ok := args[0].(*ast.Ident)
+		if !ok {
+			fail("%s: bound variable expected", name)
+		}
+		bt := c.resolveType(args[1])
+		n := *c
+		n.bound = map[string]specVal{}
+		for k, v := range c.bound {
+			n.bound[k] = v
+		}
+		vc.n++
+		bn := fmt.Sprintf("q_%s_%d", id.Name, vc.n)
+		n.bound[id.Name] = specVal{term: bn, typ: bt}
+		vc.inQuant++
+		body := func() specVal {
+			defer func() { vc.inQuant-- }()
+			return n.eval(args[2])
+		}()
+		return specVal{term: fmt.Sprintf("(%s ((%s %s)) %s)", strings.TrimSuffix(name, "_as"), bn, vc.sortOf(bt), body.term), typ: tBool}
 	case "forall", "exists":
 		n := *c
 		n.bound = map[string]specVal{}
@@ -860,6 +881,32 @@ func (c *specCtx) call(x *ast.CallExpr) specVal {
 		a := c.eval(args[0])
 		return specVal{term: fmt.Sprintf("(cond_lock %s)", a.term), typ: tInt}
 	}
+	// ghost uninterpreted functions
+	if uf, ok := vc.eng.contracts.UFuns[name]; ok {
+		var sorts, terms []string
+		for i, a := range args {
+			v := c.eval(a)
+			srt := vc.sortOfVal(v)
+			if i < len(uf.Params) {
+				if t := c.tryResolveType(uf.Params[i].Type); t != nil {
+					srt = vc.sortOf(t)
+				}
+			}
+			sorts = append(sorts, srt)
+			terms = append(terms, v.term)
+		}
+		var rt types.Type = tInt
+		if uf.Result != "" {
+			if e, err := parser.ParseExpr(uf.Result); err == nil {
+				if t := c.tryResolveType(e); t != nil {
+					rt = t
+				}
+			}
+		}
+		vc.declareOnceRaw("uf_"+name, fmt.Sprintf("(declare-fun uf_%s (%s) %s)", name, strings.Join(sorts, " "), vc.sortOf(rt)))
+		vc.assume("ghost function " + name + " is defined by the axioms in the contract file (definitional, by recursion on its integer argument)")
+		return specVal{term: fmt.Sprintf("(uf_%s %s)", name, strings.Join(terms, " ")), typ: rt}
+	}
 	// user predicates / spec functions
 	if pd := c.lookupPred(name); pd != nil {
 		return c.expandPred(pd, args)
@@ -959,10 +1006,12 @@ func (c *specCtx) convert(v specVal, t types.Type) specVal {
 	fs := vc.sortOfVal(v)
 	switch {
 	case toInt && (fromInt || fs == "Int"):
-		if bt, ok := v.typ.(*types.Basic); ok && bt.Info()&types.IsUntyped != 0 {
+		if bt, ok := v.typ.(*types.Basic); ok && bt.Info()&types.IsUntyped != 0 && isNumeral(v.term) {
 			return specVal{term: v.term, typ: t}
 		}
-		if fromInt {
+		// specification arithmetic is mathematical, so even a same-type conversion must wrap;
+		// only heap reads / parameters (atoms or selects) are known to be in range already
+		if fromInt && (isAtom(v.term) || strings.HasPrefix(v.term, "(select ")) {
 			flo, fhi, _ := intRange(v.typ)
 			tlo, thi, _ := intRange(t)
 			if cmpBig(tlo, flo) <= 0 && cmpBig(fhi, thi) <= 0 {
@@ -1296,4 +1345,17 @@ func (vc *VC) modTargetSVs(callee *ssa.Function, target string) []string {
 		curT = curT.Underlying().(*types.Struct).Field(idx).Type()
 	}
 	return nil
+}
+
+
+func isNumeral(t string) bool {
+	if t == "" {
+		return false
+	}
+	for _, r := range t {
+		if r < '0' || r > '9' {
+			return false
+		}
+	}
+	return true
 }
